@@ -513,6 +513,8 @@ class SessionFamily:
 
     def random_part(self, ctx, prop, kind, repeat=50):
         nt, per = SESSION_RANDOM[ctx.tier]
+        if kind == 'determinism' and ctx.tier == 'thorough':
+            nt, per = 600, 100          # every session is executed `repeat` times
         ctx.vh('gen-session', '-seed', ctx.seed, '-ntrees', nt, '-per', per, '-kind', kind, '-repeat', repeat,
                '-trees', 'r_trees.ndjson', '-decls', 'r_decls.ndjson', '-scen', 'r_scen.ndjson')
         ctx.vh('run', '-trees', 'r_trees.ndjson', '-scen', 'r_scen.ndjson', '-out', 'r_rec.ndjson', '-workers', NCPU)
@@ -717,7 +719,7 @@ class DeterminismFamily(SessionFamily):
             rn += on
             ctx.log('ran %d %s scenarios x %d: %d gave more than one observation' % (on, name, r2, len(obad['C15'])))
         # setup errors of declarations (duplicate names ...) and command diagnoses (ties in distance ...): the same message every time
-        nn = 4000 if not th else 40000
+        nn = 4000 if not th else 12000
         for name, gen, trace, props in (
                 ('decl', ['gen-decl', '-seed', ctx.seed, '-n', nn, '-repeat', r2], 'Trace_Decl', ['C19', 'C15', 'DRIFT']),
                 ('closest', ['gen-closest', '-seed', ctx.seed, '-n', nn, '-repeat', r2], 'Trace_Closest', ['C20', 'C15', 'DRIFT'])):
